@@ -190,7 +190,7 @@ func (s *sSet) sdl(withDesc bool) string {
 
 var sDescs = []string{"", "", "plain words", "with 'single' quote", "tab\there", "unicode é 日本", "trailing space ", "a # hash", "semi;colon {brace}"}
 
-var sDescsHard = []string{`back\slash`, `quote " inside`, "line one\nline two", `triple """ inside`, `A escape-looking`, `ends with backslash\`}
+var sDescsHard = []string{`back\slash`, `quote " inside`, `ends with a "quote"`, `"starts" with a quote`, `"`, `two "" quotes`, `say "hi" and "bye"`, "line one\nline two", `triple """ inside`, `A escape-looking`, `ends with backslash\`}
 
 func genDesc(r *Rng, hard bool) string {
 	if hard && r.Chance(35) {
@@ -206,8 +206,15 @@ type sdlOpts struct {
 	schemaBlk bool
 }
 
+// tagUseNull: also generate `@tag(n: null)` — an explicit null for an argument that has a default (C16)
+var tagUseNull bool
+
 func genTagUse(r *Rng) sDirUse {
 	d := sDirUse{name: "tag"}
+	if tagUseNull && r.Chance(25) {
+		d.args = append(d.args, [2]string{"n", "null"})
+		return d
+	}
 	switch r.Intn(3) {
 	case 0:
 		d.args = append(d.args, [2]string{"n", fmt.Sprint(r.Intn(50))})
